@@ -178,6 +178,11 @@ class Resolver:
         if isinstance(e, ast.Attribute):
             return self._type_of_attr(e, f, depth)
         if isinstance(e, ast.Call):
+            if isinstance(e.func, ast.Attribute) and e.func.attr == "__new__" and e.args:
+                # cls.__new__(cls) / object.__new__(cls): an instance made without running __init__
+                t0 = self.type_of(e.args[0], f, depth + 1)
+                if t0 is not None and t0[0] == "cls":
+                    return ("inst", t0[1])
             return self._type_of_call(e, f, depth)
         if isinstance(e, ast.BinOp):
             l = self.type_of(e.left, f, depth + 1)
@@ -442,6 +447,10 @@ class Resolver:
             return [Target("ext", name="super." + fn.attr)]
         if isinstance(fn, ast.Name) and fn.id == "type" and len(call.args) == 1:
             return [Target("ext", name="type")]
+        if isinstance(fn, ast.Attribute) and fn.attr == "__new__" and call.args:
+            t0 = self.type_of(call.args[0], f)
+            if t0 is not None and t0[0] == "cls" and (isinstance(fn.value, ast.Name) and (fn.value.id == "object" or self.type_of(fn.value, f) == t0)):
+                return [Target("ext", name="object.__new__")]
         t = self.type_of(fn, f)
         if t is not None:
             if t[0] == "func":
